@@ -46,9 +46,16 @@ func toNotification(host *Host) Notification {
 }
 
 func (h *Session) sendNotification(notification Notification) {
-	if len(h.C) < cap(h.C) {
-		h.C <- notification
+	// Close() closes the channel: hold it off while sending and drop the notification afterwards
+	h.closeMutex.RLock()
+	defer h.closeMutex.RUnlock()
+	if h.closed {
 		return
+	}
+	select {
+	case h.C <- notification:
+		return
+	default:
 	}
 	Logger.Msg("notification channel is full").Int("len", len(h.C)).Struct(notification).Write()
 }
